@@ -30,17 +30,17 @@ func chanRole(v ssa.Value) string {
 				if r := localAliasRole(a); r != "" {
 					return r
 				}
-				return shortName(a.Parent()) + "." + a.Comment
+				return shortName(a.Parent()) + "." + aliasedLocal(a.Parent(), a.Comment)
 			}
 			if fv, ok := u.X.(*ssa.FreeVar); ok {
-				return shortName(fv.Parent()) + "." + fv.Name()
+				return shortName(fv.Parent()) + "." + aliasedLocal(fv.Parent(), fv.Name())
 			}
 		}
 	case *ssa.Field:
 		st := u.X.Type()
 		return structName(st) + "." + st.Underlying().(*types.Struct).Field(u.Field).Name()
 	case *ssa.Parameter:
-		return shortName(u.Parent()) + "." + u.Name()
+		return shortName(u.Parent()) + "." + aliasedLocal(u.Parent(), u.Name())
 	case *ssa.ChangeType:
 		return chanRole(u.X)
 	}
